@@ -35,6 +35,7 @@ func init() {
 				}
 			}
 			ruleSetupFamily(c, "C19.SETUP.FAMILY", fns, v4)
+			rulePoolIsParsedNetwork(c, "C19.SETUP.POOL") // the prefix pool and its allocation size are validated before the allocator is built
 			ruleSetupHandlerOrError(c, "C19.SETUP.HANDLER-OR-ERROR", ro)
 			ruleChainLoad(c, "C19.SETUP.ABORT")
 			// the handlers a setup returns must be safe for every request: same rules as C01 on the handler scope
@@ -79,4 +80,21 @@ func init() {
 			c.R.Note("config scope: %d functions reachable from config.Load", len(fns))
 		},
 	})
+}
+
+// runSetupFamily: SETUP.FAMILY over the setup scope (shared by C19 and C17).
+func runSetupFamily(c *Ctx, rule string) {
+	ro, _, fns := setupScope(c)
+	v4 := map[*ssa.Function]bool{}
+	_, v4fns := ReachFirstParty(c.P, ro.Setups4)
+	for _, f := range v4fns {
+		v4[f] = true
+	}
+	_, v6fns := ReachFirstParty(c.P, ro.Setups6)
+	for _, f := range v6fns {
+		if !isAnchor(f, "setupFile") && !isAnchor(f, "loadFromFile") {
+			delete(v4, f)
+		}
+	}
+	ruleSetupFamily(c, rule, fns, v4)
 }
